@@ -17,6 +17,7 @@ pub mod c13;
 pub mod c14;
 pub mod c15;
 pub mod c16;
+pub mod c17;
 pub mod c18;
 pub mod c19;
 pub mod c20;
@@ -39,6 +40,7 @@ pub fn spec(id: &str) -> Option<PropSpec> {
         "C14" => Some(c14::spec()),
         "C15" => Some(c15::spec()),
         "C16" => Some(c16::spec()),
+        "C17" => Some(c17::spec()),
         "C18" => Some(c18::spec()),
         "C19" => Some(c19::spec()),
         "C20" => Some(c20::spec()),
